@@ -108,6 +108,14 @@ func Gen(t *rapid.T, maxBlocks int) Case {
 			ops = append(ops, op)
 		}
 	}
+	if n >= 2 && rapid.IntRange(0, 5).Draw(t, "together") == 0 {
+		// a request, a second one whose hook lets the workers run, and something ending the first, all in
+		// the responder's inbox together: the first one's task is picked up while its end is being handled
+		c.Reqs[0].ReqHook, c.Reqs[1].ReqHook, c.Reqs[1].Peer = "validate", "yield", c.Reqs[0].Peer
+		end := Op{K: rapid.SampledFrom([]string{"cancelmsg", "cancelmsg", "updatemsg"}).Draw(t, "endk"), R: 0, Ext: ExtError, Fast: rapid.Bool().Draw(t, "endfast")}
+		pre := []Op{{K: "new", R: 0, Burst: true}, {K: "new", R: 1, Burst: true}, end}
+		ops = append(pre, ops...)
+	}
 	c.Ops = ops
 	c.FailAt = rapid.SliceOfNDistinct(rapid.IntRange(0, 12), 0, 3, rapid.ID[int]).Draw(t, "failat")
 	if rapid.IntRange(0, 3).Draw(t, "hasstall") == 0 {
